@@ -372,7 +372,7 @@ def rule_val_frac(ag, x, r, ea, hole=None):
     return tot
 
 
-def gen_fx_recursive(rng, linear=False, max_q=None):
+def gen_fx_recursive(rng, linear=False, max_q=None, dead=False, scalar_start=False):
     """A recursive grammar with quarter-valued weights whose least fixed point is `cert` by
     construction (each nonterminal gets a constant rule that makes cert a fixed point)."""
     from fractions import Fraction
@@ -383,7 +383,10 @@ def gen_fx_recursive(rng, linear=False, max_q=None):
         ntn = ['S', 'X'][:nnt]
         els = {}
         for i, n in enumerate(ntn):
-            els[n] = {'t': False, 'type': ['T'] * (rng.choice([0, 0, 1]) if i == 0 else rng.choice([0, 1]))}
+            els[n] = {'t': False, 'type': ['T'] * ((0 if scalar_start else rng.choice([0, 0, 1])) if i == 0 else rng.choice([0, 1]))}
+        if dead:
+            # an unproductive nonterminal D (every rule of D needs D again): value 0; rules that use it are dead
+            els['D'] = {'t': False, 'type': []}
         els['a'] = {'t': True, 'type': ['T']}
         els['b'] = {'t': True, 'type': []}
         wfx = {'a': [rng.choice([256, 512, 512, 768]) for _ in range(nls['T'])], 'b': [rng.choice([256, 512])]}
@@ -412,10 +415,21 @@ def gen_fx_recursive(rng, linear=False, max_q=None):
                     edges.append({'lab': 'a', 'att': [rng.randrange(len(nodes)) + 1]})
                 rng.shuffle(edges)
                 rules.append({'lhs': X, 'nodes': nodes, 'edges': edges, 'ext': ext})
+        if dead:
+            rules.append({'lhs': 'D', 'nodes': [], 'edges': [{'lab': 'S' if els['S']['type'] == [] else 'D', 'att': []}, {'lab': 'D', 'att': []}], 'ext': []})
+            for X in ntn:          # a dead rule for some live nonterminals, placed FIRST among its rules
+                if rng.random() < 0.8:
+                    typ = els[X]['type']
+                    dr = {'lhs': X, 'nodes': list(typ), 'edges': [{'lab': 'D', 'att': []}, {'lab': 'b', 'att': []}], 'ext': list(range(1, len(typ) + 1))}
+                    rules.insert(0, dr)
         ag = {'nls': nls, 'els': els, 'elorder': list(els), 'start': 'S', 'rules': rules, 'wfx': wfx}
         # target fixed point on the quarter grid
-        x = {X: [Fraction(rng.choice([1, 2, 2, 3, 4, 6]), 4) for _ in range(numel(shape_of(ag, X)))] for X in ntn}
+        x = {X: [Fraction(rng.choice([1, 2, 2, 3] if dead else [1, 2, 2, 3, 4, 6]), 4) for _ in range(numel(shape_of(ag, X)))] for X in ntn}
+        if dead:
+            x['D'] = [Fraction(0)]
         cert, ok = {}, True
+        if dead:
+            cert['D'] = [0]
         for X in ntn:
             sh = shape_of(ag, X)
             cname = 'c' + X
@@ -439,7 +453,7 @@ def gen_fx_recursive(rng, linear=False, max_q=None):
         ag['elorder'] = list(els)
         # contraction: largest Jacobian row sum at x
         q = Fraction(0)
-        for X in ntn:
+        for X in (ntn + ['D'] if dead else ntn):
             for ea in itertools.product(*[range(s) for s in shape_of(ag, X)]):
                 row = Fraction(0)
                 for r in rules:
@@ -455,7 +469,8 @@ def gen_fx_recursive(rng, linear=False, max_q=None):
         ag['q_hint'] = float(q)
         ag['w'] = {t: [0] * len(v) for t, v in wfx.items()}
         ag['wmp'] = {t: [0] * len(v) for t, v in wfx.items()}
-        rng.shuffle(ag['rules'])
+        if not dead:
+            rng.shuffle(ag['rules'])
         return ag
     raise RuntimeError('gen_fx_recursive: no instance found')
 
